@@ -188,6 +188,8 @@ func (x *Exec) call(in ssa.Instruction, c *ssa.CallCommon, res ssa.Value) {
 		rnames = fc.Results
 	}
 	pre := x.st.clone()
+	x.typeArgFn = callee
+	defer func() { x.typeArgFn = nil }()
 	if fc == nil {
 		if x.scalarArgsOnly(c) {
 			e.assumptionsUsed["uncontracted callee with scalar-only arguments has no effect on modelled state: "+key] = true
